@@ -37,6 +37,11 @@ RESOLVE = z3.Function('resolved_data', I, I, I, Obj, Obj)
 RESOLVABLE = z3.Function('resolvable_d', I, I, I, Obj, B)
 
 
+# history of a layer: number of revisions of an oid, and its revisions newest first (record ids)
+HCNT = z3.Function('history_count', I, I, I)
+HREC = z3.Function('history_records', I, I, z3.ArraySort(I, I))
+
+
 def new_astorage(c, name, layer):
     return c.new_obj('astorage', None, {
         'rev': z3.Array(fresh_name(name + '_rev'), I, AIB),
@@ -136,6 +141,22 @@ def astorage_method(c, interp, ref, o, name, args, kwargs, node):
                                            t > o.f['ltid'])))
         o.f['ltid'] = t
         return num_to_bytes(c, t, 8, 'tid')
+    if name == 'history':
+        # A-ISTORAGE.history(oid, size): the min(size, count) newest revisions of the object in THIS layer,
+        # newest first; POSKeyError when the layer has no revision of it
+        oid = bytes_num(c, args[0], node)
+        size = args[1] if len(args) > 1 else kwargs.get('size', VInt(z3.IntVal(1)))
+        if not isinstance(size, VInt):
+            raise Unsupported('history size', node)
+        cnt = HCNT(layer, oid)
+        c.assume(cnt >= 0)
+        if c.choose([cnt == 0, cnt > 0], 'history-known') == 0:
+            raise RaiseSig(VExc(POSKeyError))
+        r = prims.new_slist(c, 'int', 'history')
+        o_ = c.obj(r)
+        o_.f['len'] = z3.If(size.t < cnt, z3.If(size.t > 0, size.t, 0), cnt)
+        o_.f['arr'] = HREC(layer, oid)
+        return r
     if name in ('getName', 'sortKey'):
         return VStr('<name>')
     # anything else: opaque call (recorded; judged by the base-frame obligation)
@@ -237,6 +258,7 @@ class DemoSpec(Spec):
 
 class DemoLoadBefore(DemoSpec):
     func = 'ZODB.DemoStorage:DemoStorage.loadBefore'
+    props = ('C16', 'C04')
     cases = ('tid', 'maxtid')
 
     def setup(self, c, case=None):
@@ -496,6 +518,68 @@ class DemoNewOid(DemoSpec):
         return {0: LoopSpec(inv=inv, havoc=havoc, kinds={'oid': lambda c, fr: NONE})}
 
 
+class DemoHistory(DemoSpec):
+    """history(oid, size): the revisions of BOTH layers, newest first - those of the changes layer, then,
+    while fewer than `size`, those of the base; POSKeyError only if neither layer knows the object"""
+    func = 'ZODB.DemoStorage:DemoStorage.history'
+    props = ('C16',)
+
+    def setup(self, c, case=None):
+        g = self.mk(c, in_txn=False)
+        size = c.fresh_int('size')
+        c.assume(size.t >= 1)
+        return {'self': g['self'], 'oid': c.fresh_bytes(8, 'oid'), 'size': size}
+
+    def hooks(self, c):
+        hk = DemoSpec.hooks(self, c) or {}
+
+        def binop(cc, op, a, b, node):
+            import ast as _ast
+            if isinstance(op, _ast.Add) and isinstance(b, VRef) and cc.obj(b).kind == 'slist':
+                # list + list: concatenation
+                if isinstance(a, VRef) and cc.obj(a).kind == 'list' and cc.obj(a).meta.get('items') == []:
+                    return b
+                if isinstance(a, VRef) and cc.obj(a).kind == 'slist':
+                    x, y = cc.obj(a).f, cc.obj(b).f
+                    k = z3.Int(fresh_name('k'))
+                    r = prims.new_slist(cc, 'int', 'concat')
+                    cc.obj(r).f['len'] = z3.simplify(x['len'] + y['len'])
+                    cc.obj(r).f['arr'] = z3.Lambda([k], z3.If(k < x['len'], z3.Select(x['arr'], k),
+                                                              z3.Select(y['arr'], k - x['len'])))
+                    return r
+            return None
+        hk['binop'] = binop
+        return hk
+
+    def modifies(self, c, E):
+        return set()
+
+    def outcomes(self, c, E):
+        g = c.ghost['demo']
+        oid, size = bytes_num(c, E['oid']), E['size'].t
+        lc, lb = c.obj(g['changes']).meta['layer'], c.obj(g['base']).meta['layer']
+        cc_, cb = HCNT(lc, oid), HCNT(lb, oid)
+        c.assume(z3.And(cc_ >= 0, cb >= 0))      # counts (definition of the ghost functions)
+        n1 = z3.If(size < cc_, size, cc_)
+        rest = size - n1
+        n2 = z3.If(rest < cb, rest, cb)
+
+        def post(c, E, r):
+            if isinstance(r, VRef) and c.obj(r).kind == 'list' and c.obj(r).meta.get('items') == []:
+                return [('merged-history', False)]
+            if not (isinstance(r, VRef) and c.obj(r).kind == 'slist'):
+                return [('returns-a-list', False)]
+            f = c.obj(r).f
+            i = z3.Int(fresh_name('i'))
+            return [('length-is-min-of-size-and-both-layers', f['len'] == n1 + n2),
+                    ('changes-revisions-first-then-base-revisions-newest-first', z3.ForAll([i], z3.Implies(
+                        z3.And(i >= 0, i < n1 + n2),
+                        z3.Select(f['arr'], i) == z3.If(i < n1, z3.Select(HREC(lc, oid), i),
+                                                        z3.Select(HREC(lb, oid), i - n1)))))]
+        return [Outcome('unknown-object', 'raise', POSKeyError, guard=z3.And(cc_ == 0, cb == 0)),
+                Outcome('history', guard=z3.Or(cc_ > 0, cb > 0), post=post)]
+
+
 class NewTid(Spec):
     """ZODB.utils.newTid(old): a time stamp later than `old` whatever the clock says (A-TIMESTAMP:
     TimeStamp.laterThan; the same computation as BaseStorage.tpc_begin, proved there)"""
@@ -560,7 +644,7 @@ class DemoTpcBegin(DemoSpec):
 
 class DemoTpcAbort(DemoSpec):
     func = 'ZODB.DemoStorage:DemoStorage.tpc_abort'
-    props = ('C16', 'C05')
+    props = ('C16', 'C05', 'C20')
     cases = ('same', 'other')
 
     def setup(self, c, case=None):
@@ -581,9 +665,14 @@ class DemoTpcAbort(DemoSpec):
         S0 = c.obj(g['self']).f
         same = E['transaction'].t == S0['_transaction'].t
 
+        issued0 = c.obj(S0['_issued_oids']).f['dom'] if isinstance(S0.get('_issued_oids'), VRef) else None
+
         def aborted(c, E, r):
             S = c.obj(g['self']).f
-            return [('commit-lock-released', c.obj(g['clock']).f['held'] == 0),
+            iss = S.get('_issued_oids')
+            return [('ids-handed-out-stay-remembered-as-issued (an aborted store does not make an id free again)',
+                     isinstance(iss, VRef) and issued0 is not None and c.obj(iss).f['dom'] == issued0),
+                    ('commit-lock-released', c.obj(g['clock']).f['held'] == 0),
                     ('no-transaction', isinstance(S['_transaction'], VNone)),
                     ('delegate-aborted', z3.Not(c.obj(g['changes']).f['in_txn'])),
                     ('storage-lock-released', c.obj(g['lock']).f['held'] == 0)]
@@ -660,5 +749,5 @@ class DemoTpcFinish(DemoSpec):
                             c.obj(g['issued']).f['dom'] == iss0))])]
 
 
-SPECS = [DemoLoadBefore, DemoStore, DemoNewOid, NewTid, DemoTpcBegin, DemoTpcAbort, DemoTpcFinish]
+SPECS = [DemoLoadBefore, DemoStore, DemoNewOid, DemoHistory, NewTid, DemoTpcBegin, DemoTpcAbort, DemoTpcFinish]
 INLINE = ['ZODB.utils:load_current', 'ZODB.utils:p64', 'ZODB.utils:u64']
